@@ -90,6 +90,13 @@ def canon_cmp(t):
             return ("call", LOW + "create_equalizer", (r[2][0], r[2][1], ("ctor", E.NONE, ())))
         if l == "create_comparator_two_vars" and len(r[2]) == 3:
             return ("call", LOW + "create_equalizer", (r[2][0], r[2][1], ("ctor", E.SOME, (r[2][2],))))
+        if l == "create_equalizer" and len(r[2]) == 3 and r[2][2][0] == "ctor" and str(r[2][2][1]).rsplit("::", 1)[-1] not in ("Some", "None"):
+            # the other side given by a private two-variant enum (check_comparator verifies both variants): field-less = the state
+            m = r[2][2]
+            if len(m[2]) == 0:
+                return ("call", LOW + "create_equalizer", (r[2][0], r[2][1], ("ctor", E.NONE, ())))
+            if len(m[2]) == 1:
+                return ("call", LOW + "create_equalizer", (r[2][0], r[2][1], ("ctor", E.SOME, (m[2][0],))))
     return r
 
 
@@ -125,7 +132,16 @@ def check_comparator(rep, rule, eng, f, mode):
     if mode == "both" and len(pn) >= 3:
         # the shared builder is partially evaluated for its two uses: state comparator (None) and two-variable comparator (Some)
         ok = True
-        for sub_mode, val in (("state", ("ctor", E.NONE, ())), ("two", ("ctor", E.SOME, (("param", "#other"),)))):
+        cases = (("state", ("ctor", E.NONE, ())), ("two", ("ctor", E.SOME, (("param", "#other"),))))
+        # the "other side" may be an Option<&str> or a private two-variant enum (one field-less variant = the state, one carrying the name)
+        pty = str(f.param_tys[2]).lstrip("&").split("<", 1)[0].strip()
+        adt = eng.prog.adts.get(pty)
+        if adt and adt.get("kind") == "enum" and len(adt.get("variants", [])) == 2:
+            bare = [v for v in adt["variants"] if not v.get("fields")]
+            named = [v for v in adt["variants"] if len(v.get("fields") or []) == 1]
+            if len(bare) == 1 and len(named) == 1:
+                cases = (("state", ("ctor", f"{pty}::{bare[0]['name']}", ())), ("two", ("ctor", f"{pty}::{named[0]['name']}", (("param", "#other"),))))
+        for sub_mode, val in cases:
             try:
                 sp = eng.specialise(f, {pn[2]: val})
             except Exception:
